@@ -36,6 +36,7 @@ typedef struct {
 
 /* a caller may also stop asking as soon as it has received the declared number of bytes (no trailing read that returns 0) */
 static int STOP_AT_DECLARED;
+static size_t BLOCK;
 
 /* one run: schedule = list of sizes used cyclically; monitor attached after 'attach' reads (-1: never) */
 static void run_schedule(const char *method, const uint8_t *in, size_t n, size_t declared,
@@ -180,7 +181,8 @@ static void explore_stream(const char *method, const stream_t *st, int depth, in
 				}
 			}
 		} else {
-			size_t menu[7] = { 0, 1, 2, 7, 64, 4096, declared + 1 };
+			size_t menu[10] = { 0, 1, 2, 7, 64, 4096, declared + 1, BLOCK ? BLOCK - 1 : 3, BLOCK ? BLOCK : 5, BLOCK + 1 };   /* BLOCK: the decoder's own output block */
+			int nmenu = base.len > BLOCK && BLOCK ? 10 : 7;
 			int len, idx[4], i, attach;
 			int maxlen = base.len > 20000 ? 1 : depth;
 			static const int attaches[5] = { -1, 0, 1, 2, 1000000 };
@@ -207,7 +209,7 @@ static void explore_stream(const char *method, const stream_t *st, int depth, in
 							vf_nontrivial(vf_mix(vf_hash(st->s, st->n, declared), vf_hash(sc, sizeof(size_t) * len, attach)));
 						}
 					}
-					for (i = len - 1; i >= 0; --i) { if (++idx[i] < 7) break; idx[i] = 0; }
+					for (i = len - 1; i >= 0; --i) { if (++idx[i] < nmenu) break; idx[i] = 0; }
 					if (i < 0) break;
 				}
 			}
@@ -233,7 +235,12 @@ int main(int argc, char **argv)
 	t = lha_decoder_for_name((char *) method);
 	if (!t) return 2;
 	/* long stream: 2.5 progress blocks */
-	targets[3] = longs ? t->block_size * 5 / 2 + 3 : 0;
+#ifndef VF_NO_INTERNALS
+	BLOCK = t->block_size;
+#else
+	BLOCK = 4096;
+#endif
+	targets[3] = longs ? BLOCK * 5 / 2 + 3 : 0;
 	for (ti = 0; ti < 4; ++ti) {
 		size_t elen = 0, n, cut;
 		if (targets[ti] == 0) continue;
